@@ -164,6 +164,18 @@ func (h *RealtimeHandler) HandleParticipantJoin(ctx context.Context, handleFrame
 		return nil
 	}
 
+	if _, ok := h.Sessions.GetByGlobalID(req.SessionId); !ok && req.SessionId != "" {
+		// Refuse before leaving the current session: a refused request must
+		// not change anything.
+		respond.Send(&hagallpb.ErrorResponse{
+			Type:      hagallpb.MsgType_MSG_TYPE_ERROR_RESPONSE,
+			Timestamp: timestamppb.Now(),
+			RequestId: req.RequestId,
+			Code:      hagallpb.ErrorCode_ERROR_CODE_NOT_FOUND,
+		})
+		return nil
+	}
+
 	if h.currentParticipant != nil {
 		h.leaveSession()
 	}
